@@ -48,6 +48,11 @@ type reentFn struct {
 
 func (r reentFn) String() string { r.f(); return r.s }
 
+// lvPanics is a LogValuer whose LogValue panics (log/slog's Value.Resolve turns that into an error value).
+type lvPanics struct{}
+
+func (lvPanics) LogValue() logslog.Value { panic("LogValue panicked") }
+
 type lvValuer struct{ v logslog.Value }
 
 func (l lvValuer) LogValue() logslog.Value { return l.v }
@@ -162,6 +167,12 @@ func c15attrs() []c15attr {
 				return ""
 			}
 			return fmt.Sprintf("nested LogValuer not resolved: %v", v)
+		}},
+		{"LogValuer that panics", func() logslog.Attr { return logslog.Any("k", lvPanics{}) }, func(v any) string {
+			if v == nil {
+				return "the attribute whose LogValue panicked is missing (log/slog resolves it to an error value)"
+			}
+			return ""
 		}},
 		{"Any error", func() logslog.Attr { return logslog.Any("k", errors.New("boom")) }, func(v any) string {
 			switch z := v.(type) {
@@ -530,6 +541,31 @@ func c15eval(cas c15case) *Violation {
 		}
 		return nil
 	}
+	if cas.Layer == "L2c-many-attrs-with-duplicate" {
+		// a derived handler with six bound attributes handles a record with eight of its own; one key is in
+		// both: fourteen attributes in all, every key once, and for the shared key the record's own value
+		hd := w.h.WithAttrs([]logslog.Attr{logslog.Int("b1", 1), logslog.Int("b2", 2), logslog.String("dup", "bound"), logslog.Int("b3", 3), logslog.Int("b4", 4), logslog.Int("b5", 5)})
+		rec := logslog.NewRecord(tsZone, logslog.LevelWarn, msg, 0)
+		rec.AddAttrs(logslog.Int("r7", 7), logslog.Int("r6", 6), logslog.Int("r5", 5), logslog.String("dup", "record"), logslog.Int("r4", 4), logslog.Int("r3", 3), logslog.Int("r2", 2), logslog.Int("r1", 1))
+		if pan := catch(func() { _ = hd.Handle(ctx, rec) }); pan != "" {
+			return mk("call-returns", firstLine(pan))
+		}
+		if len(w.rec.events) != 1 {
+			return mk("emitted-once", fmt.Sprintf("%d records", len(w.rec.events)))
+		}
+		r, e := c15decode(w.rec.events[0].Payload, cas.Format)
+		if e != "" {
+			return mk("decodable", e)
+		}
+		if len(r.keys) != 13 {
+			return mk("record-attrs", fmt.Sprintf("%d attributes in the record, 13 expected (6 bound + 8 own, one key shared): %.300q", len(r.keys), w.rec.events[0].Payload))
+		}
+		if got := fmt.Sprint(r.attrs["dup"]); got != "record" && got != `"record"` {
+			return mk("record-attrs", fmt.Sprintf("the key given both to WithAttrs and to the record carries %v, not the record's own value: %.300q", r.attrs["dup"], w.rec.events[0].Payload))
+		}
+		c15last = w.rec.events[0].Payload
+		return nil
+	}
 	if cas.Layer == "L2b-empty-attr-between" {
 		// an empty log/slog Attr (ignored by log/slog handlers) between other attributes: everything after it must still arrive
 		rec := logslog.NewRecord(tsZone, logslog.LevelWarn, msg, 0)
@@ -853,6 +889,7 @@ func c15cases(thorough bool, emit func(c15case)) {
 	// L2b: empty attributes between others; L4w: per-level writers of the logger behind the handler
 	for _, f := range formats {
 		emit(c15case{Layer: "L2b-empty-attr-between", Format: f, LogLevel: int(slog.TraceLevel), SlogLvl: 4, Via: "Handle"})
+		emit(c15case{Layer: "L2c-many-attrs-with-duplicate", Format: f, LogLevel: int(slog.TraceLevel), SlogLvl: 4, Via: "Handle"})
 		emit(c15case{Layer: "L4w-level-writer", Format: f, LogLevel: int(slog.TraceLevel), SlogLvl: 4, Via: "Handle"})
 		for _, ch := range chains {
 			emit(c15case{Layer: "L4w-level-writer", Format: f, LogLevel: int(slog.TraceLevel), SlogLvl: 4, Chain: ch, Via: "Handle"})
